@@ -329,7 +329,9 @@ def _check_nodes_loop(ctx, f):
                         if bs_ and all(isinstance(b, ast.Name) for b in bs_) and depth < 4:
                             return all(bound_to(b, names, depth + 1) for b in bs_)  # alias of another local
                         return bool(bs_) and all(isinstance(b, ast.Call) and any(t.kind == "def" and t.func.name in names for t in ctx.R.resolve_call(b, f, count=False)) for b in bs_)
-                    aa = ev.node.args
+                    aa = list(ev.node.args)
+                    if len(aa) == 3:
+                        aa[2] = util.expand_locals(ctx, f, aa[2])  # `if segs := node.sub_segments: cache.add(p, node, segs)`
                     okadd = len(aa) == 3 and bound_to(aa[0], ("nearest_right",)) and bound_to(aa[1], ("traverse", "traverse_from")) \
                         and isinstance(aa[2], ast.Attribute) and aa[2].attr == "sub_segments" and isinstance(aa[2].value, ast.Name) and aa[2].value.id == aa[1].id
                     if not okadd:
